@@ -92,6 +92,10 @@ func (v DenseReal64Vector) SET(w DenseReal64Vector) {
   }
 }
 func (v DenseReal64Vector) SLICE(i, j int) DenseReal64Vector {
+  // do not expose elements beyond the end of a sub-slice
+  if j > len(v) {
+    panic("index out of bounds")
+  }
   return v[i:j]
 }
 func (v DenseReal64Vector) APPEND(w DenseReal64Vector) DenseReal64Vector {
@@ -142,7 +146,7 @@ func (v DenseReal64Vector) ReverseOrder() {
   }
 }
 func (v DenseReal64Vector) Slice(i, j int) Vector {
-  return v[i:j]
+  return v.SLICE(i, j)
 }
 func (v DenseReal64Vector) Swap(i, j int) {
   v[i], v[j] = v[j], v[i]
@@ -205,7 +209,7 @@ func (v DenseReal64Vector) ConstAt(i int) ConstScalar {
   return v[i]
 }
 func (v DenseReal64Vector) ConstSlice(i, j int) ConstVector {
-  return v[i:j]
+  return v.SLICE(i, j)
 }
 func (v DenseReal64Vector) AsConstMatrix(n, m int) ConstMatrix {
   return v.ToDenseReal64Matrix(n, m)
@@ -219,7 +223,7 @@ func (v DenseReal64Vector) MagicAt(i int) MagicScalar {
   return v.AT(i)
 }
 func (v DenseReal64Vector) MagicSlice(i, j int) MagicVector {
-  return v[i:j]
+  return v.SLICE(i, j)
 }
 func (v DenseReal64Vector) ResetDerivatives() {
   for i := 0; i < len(v); i++ {
